@@ -915,10 +915,10 @@ class Evaluator:
 
     def write(self, env, l, value, sp=None):
         vid, path = self.place(l, sp)
-        if vid not in env:
-            raise Unsupported("assignment to an unbound variable", sp)
+        if vid not in env and path:
+            raise Unsupported("assignment to a field of an unbound variable", sp)
         env2 = dict(env)
-        env2[vid] = self.set_path(env[vid], path, value, sp)
+        env2[vid] = self.set_path(env.get(vid), path, value, sp)   # (a `let x;` declared earlier is bound here)
         return env2
 
     def ev_assign(self, e, st, depth, body):
